@@ -146,7 +146,12 @@ pub fn silence_panics() {
         // keep the path from the crate directory on, so that it does not depend on $HOME
         let short = match loc.find("/registry/src/") {
             Some(i) => loc[i..].splitn(5, '/').last().unwrap_or(&loc).to_string(),
-            None => loc.trim_start_matches("/repo/").to_string(),
+            // repository sources: keep the path from the crate directory on ("patronus/src/...",
+            // "patronus-dse/src/..."), wherever the checkout lives (/repo or a scratch copy)
+            None => match loc.find("patronus") {
+                Some(i) => loc[i..].to_string(),
+                None => loc.trim_start_matches("/repo/").to_string(),
+            },
         };
         LAST_PANIC_LOC.with(|l| *l.borrow_mut() = short);
     }));
